@@ -49,12 +49,12 @@ theorem stepRename_cases (cfg : Cfg) (ops : Ops Tree Plan Backup H) (w : World T
     · exact Or.inr (Or.inl ⟨Or.inl h.1, h.2⟩)
     · exact Or.inr (Or.inr h)
 
-theorem stepUndo_cases (ops : Ops Tree Plan Backup H) (w : World Tree Plan Backup H) (t : Target H) :
-    ((stepUndo ops w t).2 = .ok ∧ ∃ i e, resolve w.entries true t = some i ∧ findEntry w.entries i = some e ∧
+theorem stepUndo_cases (cfg : Cfg) (ops : Ops Tree Plan Backup H) (w : World Tree Plan Backup H) (t : Target H) :
+    ((stepUndo cfg ops w t).2 = .ok ∧ ∃ i e, resolve w.entries true t = some i ∧ findEntry w.entries i = some e ∧
       e.revertOf = none ∧ hasRevertOf w.entries i = false ∧ hasId w.entries (.revert i w.clock) = false ∧
-      (stepUndo ops w t).1.entries = w.entries ++ [{ id := .revert i w.clock, revertOf := some i }]) ∨
-    ((stepUndo ops w t).2 = .rejected ∧ (stepUndo ops w t).1 = w) ∨
-    ((stepUndo ops w t).2 = .failed ∧ (stepUndo ops w t).1.entries = w.entries) := by
+      (stepUndo cfg ops w t).1.entries = w.entries ++ [{ id := .revert i w.clock, revertOf := some i }]) ∨
+    ((stepUndo cfg ops w t).2 = .rejected ∧ (stepUndo cfg ops w t).1 = w) ∨
+    ((stepUndo cfg ops w t).2 = .failed ∧ (stepUndo cfg ops w t).1.entries = w.entries) := by
   unfold stepUndo
   cases hr : resolve w.entries true t with
   | none => simp
@@ -82,7 +82,7 @@ theorem stepUndo_cases (ops : Ops Tree Plan Backup H) (w : World Tree Plan Backu
             | some b =>
               simp only []
               cases hv : ops.revert w.tree p b with
-              | failed t' => simp
+              | failed t' => by_cases hpv : cfg.undoPrevalidate = true <;> simp [hpv]
               | ok t' =>
                 simp only []
                 by_cases hd : hasId w.entries (.revert i w.clock) = true
@@ -112,8 +112,12 @@ theorem stepRedo_cases (cfg : Cfg) (ops : Ops Tree Plan Backup H) (w : World Tre
             have heq : stepRedo cfg ops w t = (w, .rejected) := by unfold stepRedo; simp only [hr, h1, h2, h3, hp]; simp
             rw [heq]; simp
           | some p =>
+          by_cases h4 : (cfg.redoPrevalidate && !(ops.apply w.tree p).isOk) = true
+          · have heq : stepRedo cfg ops w t = (w, .rejected) := by
+              unfold stepRedo; simp only [hr, h1, h2, h3, hp, h4]; simp
+            rw [heq]; simp
           have heq : stepRedo cfg ops w t = applyWithId cfg ops w (.redo i w.clock) p := by
-            unfold stepRedo; simp only [hr, h1, h2, h3, hp]; simp
+            unfold stepRedo; simp only [hr, h1, h2, h3, hp, h4]; simp
           rw [heq]
           rcases applyWithId_cases cfg ops w (.redo i w.clock) p with h | h | h
           · exact Or.inl ⟨h.1, i, rfl, h1, h2, h.2.1, h.2.2.1⟩
@@ -136,10 +140,10 @@ theorem step_cases (cfg : Cfg) (ops : Ops Tree Plan Backup H) (w : World Tree Pl
       rcases h.1 with h1 | h1 <;> simp [step, h1]
     · exact Or.inr ⟨by simp [step, h.1], h.2⟩
   | undo t =>
-    rcases stepUndo_cases ops w t with h | h | h
+    rcases stepUndo_cases cfg ops w t with h | h | h
     · obtain ⟨h1, i, e, _, _, _, _, hd, he⟩ := h
       exact Or.inl ⟨h1, _, he, hd⟩
-    · exact Or.inr ⟨by simp [step, h.1], by rw [show step cfg ops w (.undo t) = stepUndo ops w t from rfl, h.2]⟩
+    · exact Or.inr ⟨by simp [step, h.1], by rw [show step cfg ops w (.undo t) = stepUndo cfg ops w t from rfl, h.2]⟩
     · exact Or.inr ⟨by simp [step, h.1], h.2⟩
   | redo t =>
     rcases stepRedo_cases cfg ops w t with h | h | h
@@ -175,7 +179,7 @@ theorem step_rejected (cfg : Cfg) (ops : Ops Tree Plan Backup H) (w : World Tree
     · exact h'.2
     · simp [step, h'.1] at h
   | undo t =>
-    rcases stepUndo_cases ops w t with h' | h' | h'
+    rcases stepUndo_cases cfg ops w t with h' | h' | h'
     · simp [step, h'.1] at h
     · exact h'.2
     · simp [step, h'.1] at h
@@ -191,7 +195,7 @@ theorem undo_ok (cfg : Cfg) (ops : Ops Tree Plan Backup H) (w : World Tree Plan 
     ∃ i e, resolve w.entries true t = some i ∧ findEntry w.entries i = some e ∧ e.revertOf = none ∧
       hasRevertOf w.entries i = false ∧
       (step cfg ops w (.undo t)).1.entries = w.entries ++ [{ id := .revert i w.clock, revertOf := some i }] := by
-  rcases stepUndo_cases ops w t with h' | h' | h'
+  rcases stepUndo_cases cfg ops w t with h' | h' | h'
   · obtain ⟨_, i, e, a, b, c, d, _, f⟩ := h'
     exact ⟨i, e, a, b, c, d, f⟩
   · simp [step, h'.1] at h
@@ -298,68 +302,184 @@ theorem fresh_of_injective (ops : Ops Tree Plan Backup H)
     have := hinj _ _ _ _ (EId.plan.inj hid)
     exact hne this
 
--- the two repairs (current code) -----------------------------------------------------------------------
+-- the repairs, as hypotheses on the configuration -----------------------------------------------------------------------
 
 /-- c3d511b: with the early check, an id that is already present is refused with the world untouched -/
-theorem applyWithId_dup_current (ops : Ops Tree Plan Backup H) (w : World Tree Plan Backup H) (id : EId H) (p : Plan)
-    (hd : hasId w.entries id = true) : applyWithId .current ops w id p = (w, .rejected) := by
+theorem applyWithId_dup_current (cfg : Cfg) (hE : cfg.earlyDupCheck = true) (ops : Ops Tree Plan Backup H) (w : World Tree Plan Backup H)
+    (id : EId H) (p : Plan) (hd : hasId w.entries id = true) : applyWithId cfg ops w id p = (w, .rejected) := by
   unfold applyWithId
-  simp [hd, Cfg.current]
+  simp [hd, hE]
 
 /-- … so the only way `apply_plan` fails after a change is a partial apply of the tree side -/
-theorem applyWithId_failed_current (ops : Ops Tree Plan Backup H) (w : World Tree Plan Backup H) (id : EId H) (p : Plan)
-    (h : (applyWithId .current ops w id p).2 = .failed) : ∃ t', ops.apply w.tree p = .partly t' := by
+theorem applyWithId_failed_current (cfg : Cfg) (hE : cfg.earlyDupCheck = true) (ops : Ops Tree Plan Backup H)
+    (w : World Tree Plan Backup H) (id : EId H) (p : Plan) (h : (applyWithId cfg ops w id p).2 = .failed) : ∃ t', ops.apply w.tree p = .partly t' := by
   unfold applyWithId at h
   by_cases hd : hasId w.entries id = true
-  · simp [hd, Cfg.current] at h
+  · simp [hd, hE] at h
   · have hd' : hasId w.entries id = false := by simpa using hd
     cases ha : ops.apply w.tree p with
-    | rejected => simp [ha, hd', Cfg.current] at h
+    | rejected => simp [ha, hd', hE] at h
     | partly t' => exact ⟨t', rfl⟩
-    | ok t' b => simp [ha, hd', Cfg.current, addEntry] at h
+    | ok t' b => simp [ha, hd', hE, addEntry] at h
 
-theorem stepRename_dup_current (ops : Ops Tree Plan Backup H) (w : World Tree Plan Backup H) (s r : Bytes)
+theorem stepRename_dup_current (cfg : Cfg) (hE : cfg.earlyDupCheck = true) (ops : Ops Tree Plan Backup H) (w : World Tree Plan Backup H) (s r : Bytes)
     (hd : hasId w.entries (.plan (ops.hash (s ++ r) w.clock)) = true) :
-    (stepRename .current ops w s r).1 = w ∧ (stepRename .current ops w s r).2 ≠ .ok := by
+    (stepRename cfg ops w s r).1 = w ∧ (stepRename cfg ops w s r).2 ≠ .ok := by
   unfold stepRename
   by_cases he : ops.isEmpty (ops.scan w.tree s r) = true
   · simp [he]
-  · simp [he, applyWithId_dup_current ops w _ _ hd]
+  · simp [he, applyWithId_dup_current cfg hE ops w _ _ hd]
 
-theorem stepRename_failed_current (ops : Ops Tree Plan Backup H) (w : World Tree Plan Backup H) (s r : Bytes)
-    (h : (stepRename .current ops w s r).2 = .failed) :
+theorem stepRename_failed_current (cfg : Cfg) (hE : cfg.earlyDupCheck = true) (ops : Ops Tree Plan Backup H) (w : World Tree Plan Backup H) (s r : Bytes)
+    (h : (stepRename cfg ops w s r).2 = .failed) :
     ∃ t', ops.apply w.tree (ops.scan w.tree s r) = .partly t' := by
   unfold stepRename at h
   by_cases he : ops.isEmpty (ops.scan w.tree s r) = true
   · simp [he] at h
   · simp only [he] at h
-    exact applyWithId_failed_current ops w _ _ h
+    exact applyWithId_failed_current cfg hE ops w _ _ h
 
 /-- 07a4584: an id that has a redo entry is refused -/
-theorem stepRedo_redone_current (ops : Ops Tree Plan Backup H) (w : World Tree Plan Backup H) (t : Target H) (i : EId H)
+theorem stepRedo_redone_current (cfg : Cfg) (hR : cfg.redoOnce = true) (ops : Ops Tree Plan Backup H) (w : World Tree Plan Backup H) (t : Target H) (i : EId H)
     (hr : resolve w.entries false t = some i) (h : hasRedoOf w.entries i = true) :
-    stepRedo .current ops w t = (w, .rejected) := by
+    stepRedo cfg ops w t = (w, .rejected) := by
   unfold stepRedo
   simp only [hr]
   by_cases h1 : hasId w.entries i = true
   · by_cases h2 : hasRevertOf w.entries i = true
-    · simp [h1, h2, h, Cfg.current]
+    · simp [h1, h2, h, hR]
     · simp [h1, h2]
   · simp [h1]
 
-theorem stepRedo_ok_current (ops : Ops Tree Plan Backup H) (w : World Tree Plan Backup H) (t : Target H)
-    (h : (stepRedo .current ops w t).2 = .ok) :
+theorem stepRedo_ok_current (cfg : Cfg) (hR : cfg.redoOnce = true) (ops : Ops Tree Plan Backup H) (w : World Tree Plan Backup H) (t : Target H)
+    (h : (stepRedo cfg ops w t).2 = .ok) :
     ∃ i, resolve w.entries false t = some i ∧ hasRedoOf w.entries i = false ∧
-      hasRedoOf (stepRedo .current ops w t).1.entries i = true := by
-  rcases stepRedo_cases .current ops w t with h' | h' | h'
+      hasRedoOf (stepRedo cfg ops w t).1.entries i = true := by
+  rcases stepRedo_cases cfg ops w t with h' | h' | h'
   · obtain ⟨_, i, hr, _, _, _, he⟩ := h'
     refine ⟨i, hr, ?_, ?_⟩
     · cases hh : hasRedoOf w.entries i with
       | false => rfl
-      | true => rw [stepRedo_redone_current ops w t i hr hh] at h; cases h
+      | true => rw [stepRedo_redone_current cfg hR ops w t i hr hh] at h; cases h
     · rw [he]; simp [hasRedoOf, isRedoOf]
   · rw [h'.1] at h; cases h
   · rw [h'.1] at h; cases h
+
+/-- with the redo pre-validation (and the early id check) a redo never fails after a change -/
+theorem stepRedo_never_failed (cfg : Cfg) (hE : cfg.earlyDupCheck = true) (hP : cfg.redoPrevalidate = true)
+    (ops : Ops Tree Plan Backup H) (w : World Tree Plan Backup H) (t : Target H) :
+    (stepRedo cfg ops w t).2 ≠ .failed := by
+  intro h
+  unfold stepRedo at h
+  cases hr : resolve w.entries false t with
+  | none => simp [hr] at h
+  | some i =>
+    simp only [hr] at h
+    by_cases h1 : hasId w.entries i = true
+    · by_cases h2 : hasRevertOf w.entries i = true
+      · by_cases h3 : (cfg.redoOnce && hasRedoOf w.entries i) = true
+        · simp [h1, h2, h3] at h
+        · cases hp : lookup w.plans i with
+          | none => simp [h1, h2, h3, hp] at h
+          | some p =>
+            by_cases h4 : (ops.apply w.tree p).isOk = true
+            · simp only [h1, h2, h3, hp, h4, hP] at h
+              simp at h
+              obtain ⟨t', ht'⟩ := applyWithId_failed_current cfg hE ops w _ p h
+              rw [ht'] at h4; simp [ApplyRes.isOk] at h4
+            · simp [h1, h2, h3, hp, h4, hP] at h
+      · simp [h1, h2] at h
+    · simp [h1] at h
+
+/-- with the undo pre-validation an undo fails after a change only on a duplicate revert id -/
+theorem stepUndo_failed_prevalidated (cfg : Cfg) (hU : cfg.undoPrevalidate = true)
+    (ops : Ops Tree Plan Backup H) (w : World Tree Plan Backup H) (t : Target H)
+    (h : (stepUndo cfg ops w t).2 = .failed) :
+    ∃ i, resolve w.entries true t = some i ∧ hasRevertOf w.entries i = false ∧
+      hasId w.entries (.revert i w.clock) = true := by
+  unfold stepUndo at h
+  cases hr : resolve w.entries true t with
+  | none => simp [hr] at h
+  | some i =>
+    simp only [hr] at h
+    cases hf : findEntry w.entries i with
+    | none => simp [hf] at h
+    | some e =>
+      simp only [hf] at h
+      by_cases h1 : e.revertOf.isSome = true
+      · simp [h1] at h
+      · by_cases h2 : hasRevertOf w.entries i = true
+        · simp [h1, h2] at h
+        · simp only [h1, h2] at h
+          cases hp : lookup w.plans i with
+          | none => simp [hp] at h
+          | some p =>
+            cases hb : lookup w.backups i with
+            | none => simp [hp, hb] at h
+            | some b =>
+              simp only [hp, hb] at h
+              cases hv : ops.revert w.tree p b with
+              | failed t' => simp [hv, hU] at h
+              | ok t' =>
+                simp only [hv] at h
+                by_cases hd : hasId w.entries (.revert i w.clock) = true
+                · exact ⟨i, rfl, by simpa using h2, hd⟩
+                · have hd' : hasId w.entries (.revert i w.clock) = false := by simpa using hd
+                  simp [addEntry, hd'] at h
+
+/-- ids of the form `revert-<j>-…` belong to entries that revert `j` -/
+def RevForm (es : List (Entry H)) : Prop := ∀ e ∈ es, ∀ j c, e.id = .revert j c → e.revertOf = some j
+
+theorem revForm_append (es : List (Entry H)) (n : Entry H) (h : RevForm es)
+    (hn : ∀ j c, n.id = .revert j c → n.revertOf = some j) : RevForm (es ++ [n]) := by
+  intro e he j c hid
+  simp only [List.mem_append, List.mem_singleton] at he
+  rcases he with he | he
+  · exact h e he j c hid
+  · subst he; exact hn j c hid
+
+theorem step_revForm (cfg : Cfg) (ops : Ops Tree Plan Backup H) (w : World Tree Plan Backup H) (c : Cmd H)
+    (h : RevForm w.entries) : RevForm (step cfg ops w c).1.entries := by
+  cases c with
+  | rename s r =>
+    show RevForm (stepRename cfg ops w s r).1.entries
+    rcases stepRename_cases cfg ops w s r with h' | h' | h'
+    · rw [h'.2.2]; exact revForm_append _ _ h (by intro j c hh; cases hh)
+    · rw [h'.2]; exact h
+    · rw [h'.2]; exact h
+  | undo t =>
+    show RevForm (stepUndo cfg ops w t).1.entries
+    rcases stepUndo_cases cfg ops w t with h' | h' | h'
+    · obtain ⟨_, i, e, _, _, _, _, _, he⟩ := h'
+      rw [he]; exact revForm_append _ _ h (by intro j c hh; cases hh; rfl)
+    · rw [h'.2]; exact h
+    · rw [h'.2]; exact h
+  | redo t =>
+    show RevForm (stepRedo cfg ops w t).1.entries
+    rcases stepRedo_cases cfg ops w t with h' | h' | h'
+    · obtain ⟨_, i, _, _, _, _, he⟩ := h'
+      rw [he]; exact revForm_append _ _ h (by intro j c hh; cases hh)
+    · rw [h'.2]; exact h
+    · rw [h'.2]; exact h
+  | tick => exact h
+
+theorem run_revForm (cfg : Cfg) (ops : Ops Tree Plan Backup H) (w : World Tree Plan Backup H) (cs : List (Cmd H))
+    (h : RevForm w.entries) : RevForm (run cfg ops w cs).1.entries := by
+  induction cs generalizing w with
+  | nil => simpa [run] using h
+  | cons c cs ih => simp only [run]; exact ih _ (step_revForm cfg ops w c h)
+
+/-- in a history whose revert ids are well-formed, a prevalidated undo never fails after a change -/
+theorem stepUndo_never_failed (cfg : Cfg) (hU : cfg.undoPrevalidate = true)
+    (ops : Ops Tree Plan Backup H) (w : World Tree Plan Backup H) (t : Target H) (hF : RevForm w.entries) :
+    (stepUndo cfg ops w t).2 ≠ .failed := by
+  intro h
+  obtain ⟨i, _, hnr, hd⟩ := stepUndo_failed_prevalidated cfg hU ops w t h
+  simp [hasId] at hd
+  obtain ⟨e, he, hid⟩ := hd
+  have := hF e he i w.clock hid
+  have hr : hasRevertOf w.entries i = true := by simp [hasRevertOf]; exact ⟨e, he, this⟩
+  rw [hnr] at hr; cases hr
 
 theorem hasRedoOf_prefix (es es' : List (Entry H)) (i : EId H) (hp : es <+: es') (h : hasRedoOf es i = true) :
     hasRedoOf es' i = true := by
